@@ -65,7 +65,7 @@ def keys_along(acts):
     out = []
     for i, a in enumerate(acts):
         n, b = a[0], a[1]
-        c = cfg.setdefault(b, {"align": "none", "stable": "none", "scalar": 0, "coup": 0, "naming": "default", "rx": "sub" if b == 3 else "relab" if b == 4 else "full"})
+        c = cfg.setdefault(b, {"align": "none", "stable": "none", "scalar": 0, "coup": 0, "naming": {"parent": 0, "child": 0, "ls": 0}, "rx": "sub" if b == 3 else "relab" if b == 4 else "full"})
         ch = choice.setdefault(b, {})
         perm.setdefault(b, 0)
         if n == "SetAlign":
@@ -76,14 +76,14 @@ def keys_along(acts):
             c["scalar"] = int(a[2])
         elif n == "SetCoup":
             c["coup"] = int(a[2])
-        elif n == "SetNaming":
-            c["naming"] = a[2]
+        elif n == "SetNameFlag":
+            c["naming"][a[2]] = int(a[3])
         elif n == "Assign":
             ch[a[2]] = a[3]
         elif n == "Permutate":
             perm[b] = 1
         elif n == "Formulate":
-            out.append((i, [dict(c), {k: v for k, v in sorted(ch.items()) if v != "none"}, perm[b]]))
+            out.append((i, [dict(c, naming=dict(c["naming"])), {k: v for k, v in sorted(ch.items()) if v != "none"}, perm[b]]))
     return out
 
 
@@ -97,23 +97,29 @@ def pair_histories(alphabet):
         if A == B:
             continue
 
-        def conf(b, K):
+        def conf(b, K, order=("parent", "child", "ls")):
             cfg, choice, perm = K
             acts = [["SetAlign", b, cfg["align"]], ["SetStable", b, cfg["stable"]], ["SetScalar", b, cfg["scalar"]], ["SetCoup", b, cfg["coup"]],
-                    ["SetNaming", b, cfg.get("naming", "default")]]
+                    *[["SetNameFlag", b, f, cfg["naming"][f]] for f in order]]
             acts += [["Assign", b, n, choice.get(n, "none")] for n in ("R1", "R2")]
             if perm:
                 acts.append(["Permutate", b])
             return acts
 
         # one builder: A, B, A again;  two builders interleaved: 1 under A, 2 under B, 1 again
-        hs.append(conf(1, A) + [["Formulate", 1]] + conf(1, B) + [["Formulate", 1]] + conf(1, A) + [["Formulate", 1]])
+        # (the naming flags are assigned in another order the second time)
+        hs.append(conf(1, A) + [["Formulate", 1]] + conf(1, B, order=("ls", "child", "parent")) + [["Formulate", 1]] + conf(1, A) + [["Formulate", 1]])
         hs.append(conf(1, A) + conf(2, B) + [["Formulate", 2], ["Formulate", 1], ["Formulate", 2]])
+        # the shortest way from A to B: only the options that differ are assigned before the model is formulated again
+        fa, fb = conf(1, A), conf(1, B)
+        delta = [y for x, y in zip(fa, fb) if x != y] + ([["Permutate", 1]] if B[2] and not A[2] else [])
+        if not (A[2] and not B[2]) and len(fa) - A[2] == len(fb) - B[2]:
+            hs.append(fa + [["Formulate", 1]] + delta + [["Formulate", 1]])
     # two reactions over the same particles in one process: builder 3 works on the decay with a restricted helicity set
     def conf3(b, K):
         cfg, choice, perm = K
         return ([["SetAlign", b, cfg["align"]], ["SetStable", b, cfg["stable"]], ["SetScalar", b, cfg["scalar"]], ["SetCoup", b, cfg["coup"]],
-                 ["SetNaming", b, cfg.get("naming", "default")]] + [["Assign", b, n, choice.get(n, "none")] for n in ("R1", "R2")] + ([["Permutate", b]] if perm else []))
+                 *[["SetNameFlag", b, f, cfg["naming"][f]] for f in ("parent", "child", "ls")]] + [["Assign", b, n, choice.get(n, "none")] for n in ("R1", "R2")] + ([["Permutate", b]] if perm else []))
 
     for A in alphabet:
         hs.append(conf3(3, A) + [["Formulate", 3]] + conf3(1, A) + [["Formulate", 1], ["Formulate", 3]])
@@ -142,20 +148,23 @@ def run(chk, replay=None):
     chk.add_tlc("design_exhaustive", res)
     if not res.ok:
         raise Machinery(f"Builder design violates {res.violated}")
-    if any(res.coverage.get(a, 0) == 0 for a in ("SetAlign", "SetStable", "SetScalar", "SetCoup", "SetNaming", "Assign", "Permutate", "Formulate")):
+    if any(res.coverage.get(a, 0) == 0 for a in ("SetAlign", "SetStable", "SetScalar", "SetCoup", "SetNameFlag", "Assign", "Permutate", "Formulate")):
         raise Machinery(f"vacuous: action coverage {res.coverage}")
-    for dev in ("DevPinned", "DevNoReset", "DevResetAtEnd", "DevSharedNameMap", "DevCrossReactionCache", "DevProcessWideMemo"):
+    for dev in ("DevPinned", "DevNoReset", "DevResetAtEnd", "DevSharedNameMap", "DevLazyNameMapOnLs", "DevCrossReactionCache", "DevProcessWideMemo"):
         r = tlc.run("Builder_MC", MC_CFG.format(**small, builders="{1, 3}" if dev == "DevCrossReactionCache" else "{1, 4}" if dev == "DevProcessWideMemo" else "{1, 2}", ops=6, dev=dev, props="INVARIANT Pure\n"), workers=4, timeout=600)
         if r.ok:
             raise Machinery(f"Builder model insensitive to deviation {dev}")
-    chk.part("deviation_sensitivity", DpdCacheAliasing="violates Pure", NoReset="violates Pure", ResetAtEnd="violates Pure", SharedNameMap="violates Pure", CrossReactionCache="violates Pure", ProcessWideMemo="violates Pure")
+    chk.part("deviation_sensitivity", DpdCacheAliasing="violates Pure", NoReset="violates Pure", ResetAtEnd="violates Pure", SharedNameMap="violates Pure", LazyNameMapOnLs="violates Pure", CrossReactionCache="violates Pure", ProcessWideMemo="violates Pure")
 
     # 2. behaviours
     big = dict(aligns='{"none", "axis", "dpd1", "dpd2"}', stables='{"none", "all", "one", "bogus"}', names='{"R1", "R2"}', tags='{"none", "bw", "bwff"}')
     nsim = 60 if tier == "thorough" else 12
     behs = tlc.simulate("Builder_MC", MC_CFG.format(**big, builders="{1, 2, 3, 4}", ops=14, dev="DevNone", props=""), num=nsim, depth=15, seed=chk.seed + 3, with_states=False)
     histories = [spec_actions(b) for b in behs]
-    base = {"align": "none", "stable": "none", "scalar": 0, "coup": 0, "naming": "default"}
+    def nm(**kw):
+        return {"parent": 0, "child": 0, "ls": 0, **kw}
+
+    base = {"align": "none", "stable": "none", "scalar": 0, "coup": 0, "naming": nm()}
     alphabet = [
         [dict(base), {}, 0],
         [dict(base, align="dpd1"), {}, 0],
@@ -165,15 +174,17 @@ def run(chk, replay=None):
         [dict(base, align="axis", stable="one"), {}, 0],
         [dict(base, stable="all", coup=1), {"R1": "bw"}, 0],
         [dict(base), {}, 1],
-        [dict(base, naming="parent"), {}, 0],       # naming options of the amplitude name generator
-        [dict(base, naming="nochild", coup=1), {}, 0],
+        [dict(base, naming=nm(parent=1)), {}, 0],       # naming options of the amplitude name generator
+        [dict(base, naming=nm(child=1), coup=1), {}, 0],
+        [dict(base, naming=nm(ls=1)), {}, 0],
+        [dict(base, naming=nm(child=1, ls=1)), {}, 0],
         [dict(base, stable="bogus", coup=1), {"R1": "bwff"}, 0],   # formulate() raises half-way
     ]
     if tier == "thorough":
         alphabet += [[dict(base, align="dpd2", scalar=1), {"R1": "bw", "R2": "bwff"}, 0], [dict(base, align="axis", coup=1), {"R2": "bwff"}, 0],
                      [dict(base, align="dpd1", stable="one"), {"R1": "bwff"}, 1]]
     histories += pair_histories(alphabet)
-    reactions = [("jpsi_ksp_sigma", "helicity"), ("synth:11", "canonical-helicity"), ("jpsi_ksp_sigma@orig", "helicity"), ("jpsi_gpp_omega@orig", "helicity")] + ([("jpsi_3pi_rho", "helicity"), ("synth:5", "helicity")] if tier == "thorough" else [])
+    reactions = [("jpsi_ksp_sigma", "helicity"), ("synth:11", "canonical-helicity"), ("jpsi_gpp_f0", "canonical-helicity"), ("jpsi_ksp_sigma@orig", "helicity"), ("jpsi_gpp_omega@orig", "helicity")] + ([("jpsi_3pi_rho", "helicity"), ("synth:5", "helicity")] if tier == "thorough" else [])
     seeds = [None, 0, 12345] + ([1] if tier == "thorough" else [])
 
     hk = [keys_along(h) for h in histories]
